@@ -175,6 +175,21 @@ Definition gstep (cfg : config) (pol : gcpol) (E : env) (s : state) (g : greq) :
       end
   end.
 
+(* ---- re-opening the storage under another configuration ------------------------------------------------- *)
+(* A new Server on the same directory with the referrers API enabled converts, on the first load, every index that
+   was never converted (indexIngest, store.go "convert referrers").  Fallback tags (sha256-<hex> / sha512-<hex> on an
+   OCI index) are adopted or regenerated by that conversion; that part is not modelled: without any fallback tag in
+   the index (the registry creates none while the API is off) the conversion only sets the annotation. *)
+Definition fallback_name (s : string) : bool :=
+  (String.prefix "sha256-" s || String.prefix "sha512-" s) && (String.length s =? 71)%nat.
+Definition has_fallback_tag (i : index) : bool :=
+  existsb (fun d => String.eqb (d_mt d) MT_OCI_I && fallback_name (ann_get RefName d)) (top i).
+Definition reopen_repo (cfg' : config) (rp : repo) : repo :=
+  if c_referrer cfg' && negb (r_conv rp) && negb (has_fallback_tag (r_index rp))
+  then mkR (r_blobs rp) (r_index rp) true (r_uploads rp) else rp.
+Definition reopen (cfg' : config) (s : state) : state :=
+  mkSt (map (fun nr => (fst nr, reopen_repo cfg' (snd nr))) (st_repos s)) (st_nsid s) (st_now s).
+
 (* the store-wide pass (dir.gc / mem.gc after the fix: a failing repository is skipped, the pass goes on):
    every tracked repository is collected on its own; [fails r] = the collection of r errs (corrupt index.json,
    directory removed) and leaves r untouched *)
